@@ -28,6 +28,7 @@ var obKeys = [4]string{"k0", "k1", "k2", "k3"}
 type mObject struct {
 	has  [4]bool
 	vals [4]float64
+	null [4]bool // the property holds nil
 }
 
 var (
@@ -65,8 +66,12 @@ func obCompare(obj map[string]interface{}, m *mObject) {
 		verifAssert("property-presence-as-model", ok == m.has[k])
 		if ok {
 			if m.has[k] {
-				f, isF := v.(float64)
-				verifAssert("property-value-as-model", isF && f == m.vals[k])
+				if m.null[k] {
+					verifAssert("property-value-as-model", v == nil)
+				} else {
+					f, isF := v.(float64)
+					verifAssert("property-value-as-model", isF && f == m.vals[k])
+				}
 			}
 		}
 		if m.has[k] {
@@ -89,6 +94,7 @@ func VH_object(nkeys int, steps int) {
 	m := &moObj[0]
 	for k := 0; k < 4; k++ {
 		m.has[k] = false
+		m.null[k] = false
 	}
 	start := verifChoice(2)
 	for i := 0; i < nkeys; i++ {
@@ -99,6 +105,13 @@ func VH_object(nkeys int, steps int) {
 		v := moFresh()
 		vpNew(0, 0, 1)
 		vpVals[i][0] = v
+		m.null[keys[i]] = false
+		if i == 0 {
+			if verifChoice(2) == 1 {
+				vpVals[i][0] = nil // a property may hold nil; it is still a property
+				m.null[keys[i]] = true
+			}
+		}
 		env.Define(fmt.Sprintf("p%d", i), verifProbe{i})
 		m.has[keys[i]] = true
 		m.vals[keys[i]] = v
@@ -145,18 +158,28 @@ func VH_object(nkeys int, steps int) {
 		case 0: // read
 			got, _ := in.eval(&ast.PropertyAccess{Object: ident(holder, line), Property: tok(token.IDENTIFIER, obKeys[k], line), Line: line}, env, false)
 			if m.has[k] {
-				f, isF := got.(float64)
-				verifAssert("property-read-yields-its-value", !utils.HadRuntimeError && isF && f == m.vals[k])
+				if m.null[k] {
+					verifAssert("property-read-yields-its-value", !utils.HadRuntimeError && got == nil && hvCountStderr() == 0)
+				} else {
+					f, isF := got.(float64)
+					verifAssert("property-read-yields-its-value", !utils.HadRuntimeError && isF && f == m.vals[k])
+				}
 			} else {
 				verifAssert("absent-property-read-is-an-error", utils.HadRuntimeError && got == nil && hvCountStderr() >= 1)
 				return
 			}
-		case 1: // write
+		case 1: // write a number or nil
 			nv := moFresh()
-			in.eval(&ast.PropertyAssignment{Object: ident(holder, line), Property: tok(token.IDENTIFIER, obKeys[k], line), Value: lit(nv, line), Line: line}, env, false)
+			var val interface{} = nv
+			isNull := verifChoice(2) == 1
+			if isNull {
+				val = nil
+			}
+			in.eval(&ast.PropertyAssignment{Object: ident(holder, line), Property: tok(token.IDENTIFIER, obKeys[k], line), Value: lit(val, line), Line: line}, env, false)
 			verifAssert("property-write-is-not-an-error", !utils.HadRuntimeError)
 			m.has[k] = true
 			m.vals[k] = nv
+			m.null[k] = isNull
 		case 2: // delete
 			got, _ := in.eval(callNamed(nameDelete, line, ident(holder, line), lit(obKeys[k], line)), env, false)
 			if m.has[k] {
@@ -204,8 +227,12 @@ func VH_object(nkeys int, steps int) {
 					verifAssert("key-listed-once", hvStr(ks[i2]) != name)
 				}
 				if idx >= 0 {
-					f, isF := vs[i].(float64)
-					verifAssert("ith-value-belongs-to-ith-key", isF && f == m.vals[idx])
+					if m.null[idx] {
+						verifAssert("ith-value-belongs-to-ith-key", vs[i] == nil)
+					} else {
+						f, isF := vs[i].(float64)
+						verifAssert("ith-value-belongs-to-ith-key", isF && f == m.vals[idx])
+					}
 				}
 				verifAssert("same-listing-every-time", hvStr(ks2[i]) == name)
 			}
@@ -216,7 +243,11 @@ func VH_object(nkeys int, steps int) {
 				text := verifEventText(0)
 				for j := 0; j < 4; j++ {
 					if m.has[j] {
-						verifAssert("printed-object-shows-every-property", verifTextContainsInOrder(text, obKeys[j], fmt.Sprintf("%v", m.vals[j])))
+						if m.null[j] {
+							verifAssert("printed-object-shows-every-property", verifTextContainsInOrder(text, obKeys[j], "nil"))
+						} else {
+							verifAssert("printed-object-shows-every-property", verifTextContainsInOrder(text, obKeys[j], fmt.Sprintf("%v", m.vals[j])))
+						}
 					}
 				}
 			}
